@@ -1115,6 +1115,7 @@ impl World {
 				} else {
 					"[the ChannelMonitor broadcast it on its own while processing chain data; no ChannelForceClosed update had been issued]"
 				};
+				self.revoked_after_broadcast.insert(n);
 				self.violate(
 					"C05",
 					"C05-2 holder commitment revoked after it had been broadcast",
